@@ -593,6 +593,10 @@ def pat_pred(pat, scrut):
             ps.append(p)
         return p_or(ps), {}
     if k == "lit":
+        if _is_lit(pat["e"]) and pat["e"]["t"] == "bool":
+            # `match flag { true => .., false => .. }` asks the question `if flag` asks: same case variable
+            p, _ = cond_pred(scrut)
+            return (p if pat["e"]["v"] else p_not(p)), {}
         return p_var("v:" + canon(scrut), {canon(pat["e"])}), {}
     if k == "path":
         name = _variant_name(pat["p"])
@@ -977,6 +981,9 @@ class Extractor:
             return True
         if k == "mcall" and (self.is_sink(e["recv"]) or any(self.is_sink(a) for a in e["args"])):
             return True
+        if k == "mcall" and e["m"] in ("for_each", "try_for_each") and len(e["args"]) == 1 and e["args"][0].get("k") == "closure" \
+                and self.mentions_sink(e["args"][0]["body"]) and not self.mentions_sink(e["recv"]):
+            return True          # the loop `iter.try_for_each(|x| write!(sink, ..))`: its error is the sink's
         if k == "call" and any(self.is_sink(a) for a in e["args"]):
             return True
         return False
@@ -1081,6 +1088,8 @@ class Extractor:
         def leaf(n):
             while n.get("k") == "ref":
                 n = n["e"]
+            if spec == "":
+                n = self._const_lit(n, ("str",))
             if spec == "" and _is_lit(n):
                 if n["t"] == "str":
                     return Lit(n["v"].encode("utf-8"))
@@ -1094,12 +1103,42 @@ class Extractor:
             return v
         return Hole(canon(r), spec, node=r, written=written, line=line)
 
+    def _const_lit(self, n, kinds):
+        """a path naming a `const`/`static` item whose initialiser is a string / byte-string literal denotes that literal
+        (`const CSI: &[u8] = b"\\x1b["; out.write_all(CSI)` writes the same bytes as `out.write_all(b"\\x1b[")`); anything else is returned unchanged"""
+        if not isinstance(n, dict) or n.get("k") != "path" or "by_ref" in n:
+            return n
+        segs = n["p"].split("::")
+        name = segs[-1]
+        owner = segs[-2] if len(segs) > 1 and segs[-2] not in ("self", "super", "crate") else None
+        if owner == "Self":
+            owner = self._impl_self()
+        hit = None
+        if owner is not None and not owner.islower():
+            hit = self.src.const(name, impl_self=owner)
+        elif owner is None or owner.islower():
+            hit = self.src.const(name, file=self.file) if len(segs) == 1 else None
+            if hit is None:
+                cands = [(f, it) for (f, s_, it, t) in self.src.consts if it["name"] == name and not t and s_ is None]
+                hit = cands[0] if len(cands) == 1 else None
+        if hit is None:
+            return n
+        e = hit[1].get("expr")
+        while isinstance(e, dict) and e.get("k") in ("ref", "paren"):
+            e = e["e"]
+        if _is_lit(e) and e["t"] in kinds:
+            return e
+        if "bytestr" in kinds and isinstance(e, dict) and e.get("k") == "mcall" and e["m"] == "as_bytes" and not e["args"] and _is_lit(e["recv"]) and e["recv"]["t"] == "str":
+            return e
+        return n
+
     def _bytes_value(self, arg, env, line):
         r = self.resolve(arg, env)
 
         def leaf(n):
             while n.get("k") == "ref":
                 n = n["e"]
+            n = self._const_lit(n, ("bytestr",))
             if _is_lit(n) and n["t"] == "bytestr":
                 return Lit(bytes(n["v"]))
             if n.get("k") == "mcall" and n["m"] == "as_bytes" and _is_lit(n["recv"]) and n["recv"]["t"] == "str":
@@ -1129,6 +1168,14 @@ class Extractor:
         if any(self.is_sink(a) for a in e["args"]):
             t = self.expr(e["recv"], env)
             return Seq([t, self._call(e, e["m"], e["recv"], e["args"], env)])
+        if e["m"] in ("for_each", "try_for_each") and len(e["args"]) == 1 and e["args"][0].get("k") == "closure" \
+                and len(e["args"][0].get("params") or []) == 1 and self.mentions_sink(e["args"][0]["body"]) and not self.mentions_sink(e["recv"]):
+            # `iter.try_for_each(|x| write!(sink, ..))` / `iter.for_each(|x| ..)` is the loop `for x in iter { .. }`
+            cl = e["args"][0]
+            body = cl["body"]
+            if body.get("k") != "block":
+                body = {"k": "block", "line": body.get("line"), "stmts": [{"k": "expr", "e": body, "semi": False, "line": body.get("line")}]}
+            return self._loop({"k": "for", "pat": cl["params"][0], "iter": e["recv"], "body": body, "line": e.get("line")}, env)
         return self._children(e, env)
 
     def _call(self, e, name, recv, args, env):
@@ -1214,6 +1261,50 @@ class Extractor:
         return Seq([st, Alt(br, line=e.get("line"))])
 
     # ---- loops ----------------------------------------------------------------------------------
+    def _as_flag_join(self, star, loop):
+        """`let mut first = true; for x in over { if !first { SEP } first = false; ITEM }` is the separator idiom too: Join(over, SEP, ITEM).
+        Accepted only when the flag is declared once as `let mut F = true`, is assigned nowhere but in this loop, only `F = false`, on every
+        iteration (a top-level statement of the loop body, or inside the leading `if F { .. }`), and is never borrowed mutably."""
+        parts = _flag_join_parts(star)
+        if parts is None:
+            return None
+        name, sep, rest = parts
+        lets, assigns, bad = [], [], [False]
+
+        def f(n, parents):
+            k = n.get("k")
+            if k == "let" and n.get("pat", {}).get("k") == "ident" and n["pat"].get("name") == name:
+                lets.append(n)
+            elif k == "ident" and "by_ref" in n and n.get("name") == name and not (parents and parents[-1].get("k") == "let" and parents[-1].get("pat") is n):
+                bad[0] = True          # bound again by another pattern
+            elif k == "assign" and canon(n["l"]) == name:
+                assigns.append((n, parents))
+            elif k == "bin" and n["op"] in ASSIGN_OPS and canon(n["l"]) == name:
+                bad[0] = True
+            elif k == "ref" and n.get("mut") and "pat" not in n and canon(n["e"]) == name:
+                bad[0] = True
+        walk(self.fn["body"], f)
+        if bad[0] or len(lets) != 1 or not lets[0]["pat"].get("mut") or not (_is_lit(lets[0].get("init")) and lets[0]["init"]["t"] == "bool" and lets[0]["init"]["v"] is True):
+            return None
+        if not assigns:
+            return None
+        every_iteration = False
+        stmts = loop["body"]["stmts"]
+        lead_if = stmts[0]["e"] if stmts and stmts[0]["k"] == "expr" and stmts[0]["e"].get("k") == "if" else None
+        for n, parents in assigns:
+            if not any(x is loop["body"] for x in parents):
+                return None
+            if not (_is_lit(n["r"]) and n["r"]["t"] == "bool" and n["r"]["v"] is False):
+                return None
+            holder = parents[-1]
+            if len(parents) >= 2 and parents[-2] is loop["body"] and any(st is holder for st in stmts):
+                every_iteration = True          # `F = false;` as a statement of the loop body itself
+            elif lead_if is not None and canon(lead_if["cond"]) == name and len(parents) >= 3 and parents[-3] is lead_if and parents[-2] is lead_if["then"]:
+                every_iteration = True          # `if F { F = false; } else { SEP }`
+        if not every_iteration:
+            return None
+        return Join(star.iter_text, sep, rest, star=star, line=star.line)
+
     def _loop(self, e, env):
         k = e["k"]
         self.depth += 1
@@ -1282,9 +1373,37 @@ class Extractor:
             star = Star(body, iter_text, names, kind=k, iter_node=iter_node, line=e.get("line"))
             star.enumerated = enumerated
             j = as_join(star, "#index" + sfx) if enumerated else None
+            if j is None and k == "for" and not enumerated:
+                j = self._as_flag_join(star, e)
             return Seq([pre, j if j is not None else star])
         finally:
             self.depth -= 1
+
+
+def _flag_join_parts(star):
+    """(flag name, sep, rest) when the loop body starts with `if !FLAG { SEP }` / `if FLAG {} else { SEP }` and FLAG is a plain identifier"""
+    body = star.body
+    items = body.items if isinstance(body, Seq) else [body]
+    if not items or not isinstance(items[0], Alt) or len(items[0].branches) != 2:
+        return None
+    (p1, t1), (p2, t2) = items[0].branches
+    if p2 != TRUE:
+        return None
+    if p1[0] == "not" and p1[1][0] == "var" and p1[1][2] == frozenset({"T"}):
+        key, sep, first = p1[1][1], t1, t2
+    elif p1[0] == "var" and p1[2] == frozenset({"T"}):
+        key, sep, first = p1[1], t2, t1
+    else:
+        return None
+    if not re.match(r"^b:[A-Za-z_]\w*$", key) or not is_empty(first) or not writes(sep):
+        return None
+    rest = Seq(items[1:])
+    vs = {}
+    collect_vars(rest, vs, deep=True)
+    collect_vars(sep, vs, deep=True)
+    if key in vs:
+        return None
+    return key[2:], sep, rest
 
 
 def as_join(star, index_name):
@@ -1317,6 +1436,86 @@ def as_join(star, index_name):
     if key in vs:
         return None
     return Join(star.iter_text, sep, rest, star=star, line=star.line)
+
+
+# ------------------------------------------------------------------------------------------------
+# tree rewriting
+# ------------------------------------------------------------------------------------------------
+def map_atoms(t, fn):
+    """copy of template t with every leaf atom a (Lit/Hole/Raw/Call/Fail/Exit/Jump) replaced by fn(a) (return a itself to keep it)"""
+    if isinstance(t, Seq):
+        return Seq([map_atoms(i, fn) for i in t.items])
+    if isinstance(t, Scope):
+        return Scope(map_atoms(t.body, fn), t.name)
+    if isinstance(t, Alt):
+        return Alt([(p, map_atoms(b, fn)) for p, b in t.branches], line=t.line)
+    if isinstance(t, Star):
+        s = Star(map_atoms(t.body, fn), t.iter_text, t.names, kind=t.kind, iter_node=t.iter_node, line=t.line)
+        if hasattr(t, "enumerated"):
+            s.enumerated = t.enumerated
+        return s
+    if isinstance(t, Join):
+        return Join(t.over, map_atoms(t.sep, fn), map_atoms(t.item, fn), star=t.star, line=t.line)
+    return fn(t)
+
+
+def map_preds(t, fn):
+    """copy of template t with every branch predicate p replaced by fn(p)"""
+    if isinstance(t, Seq):
+        return Seq([map_preds(i, fn) for i in t.items])
+    if isinstance(t, Scope):
+        return Scope(map_preds(t.body, fn), t.name)
+    if isinstance(t, Alt):
+        return Alt([(fn(p), map_preds(b, fn)) for p, b in t.branches], line=t.line)
+    if isinstance(t, Star):
+        s = Star(map_preds(t.body, fn), t.iter_text, t.names, kind=t.kind, iter_node=t.iter_node, line=t.line)
+        if hasattr(t, "enumerated"):
+            s.enumerated = t.enumerated
+        return s
+    if isinstance(t, Join):
+        return Join(t.over, map_preds(t.sep, fn), map_preds(t.item, fn), star=t.star, line=t.line)
+    return t
+
+
+_VARIANT_PATH = re.compile(r"^(?:[A-Za-z_]\w*::)+([A-Z]\w*)$")
+
+
+def variant_eq_as_match(t):
+    """`x == Enum::V` asks what `matches!(x, Enum::V)` / a `match x { Enum::V => .. }` arm asks: comparison variables `c:<x>,<Enum::V>` restricted
+    to {eq} (or its complement) become the variant variable `v:<x>` in {V}, so that both spellings meet in one case variable"""
+    def fn(p):
+        k = p[0]
+        if k == "var" and p[1].startswith("c:"):
+            a, _, b = p[1][2:].rpartition(",")
+            if _VARIANT_PATH.match(a) and not _VARIANT_PATH.match(b):
+                a, b = b, a          # equality is symmetric; the key is sorted textually
+            m = _VARIANT_PATH.match(b)
+            if m and a and not re.match(r"^-?\d+$", a):
+                if p[2] == frozenset({"eq"}):
+                    return p_var("v:" + a, {m.group(1)})
+                if p[2] == frozenset({"lt", "gt"}):
+                    return p_not(p_var("v:" + a, {m.group(1)}))
+            return p
+        if k == "not":
+            return p_not(fn(p[1]))
+        if k in ("and", "or"):
+            return (p_and if k == "and" else p_or)([fn(q) for q in p[1]])
+        return p
+    return map_preds(t, fn)
+
+
+def str_bytes_as_display(t, is_str):
+    """`sink.write_all(X.as_bytes())` writes exactly the bytes `write!(sink, "{}", X)` writes when X is a str / String:
+    Raw(`X.as_bytes()`) -> Hole(X, "") for every X accepted by is_str(canonical text of X, node of X)"""
+    def fn(a):
+        if isinstance(a, Raw) and isinstance(a.node, dict):
+            n = a.node
+            while n.get("k") in ("ref", "paren"):
+                n = n["e"]
+            if n.get("k") == "mcall" and n["m"] == "as_bytes" and not n["args"] and is_str(canon(n["recv"]), n["recv"]):
+                return Hole(canon(n["recv"]), "", node=n["recv"], written=a.expr, line=a.line)
+        return a
+    return map_atoms(t, fn)
 
 
 # ------------------------------------------------------------------------------------------------
